@@ -88,7 +88,7 @@ theorem condition_orientation [DecidableEq C] (env : Env C K) (htol : 0 ≤ env.
 theorem strict_band_is_penalised :
     ∃ (env : Env Nat ℚ) (r : Rel2 Nat) (k : Kind) (e : Expr Nat) (x : List ℚ),
       recogniseCond r k e = true ∧ 0 < env.tol ∧ 0 ≤ env.rel ∧ r.holds env x ∧ ¬ k.satisfied (e.eval env x) := by
-  refine ⟨⟨fun n => (n : ℚ), 1, 0⟩, ⟨.var 0, .lt, .var 1⟩, .ineq,
+  refine ⟨{ ι := fun n => (n : ℚ), tol := 1, rel := 0 }, ⟨.var 0, .lt, .var 1⟩, .ineq,
     .sub (.var 0) (.sub (.var 1) (.tol (.var 1))), [1 / 2, 1], by decide, by norm_num, by norm_num, ?_, ?_⟩
   · simp only [Rel2.holds, Cmp.holds, Expr.eval]; norm_num
   · simp only [Kind.satisfied, Expr.eval, tolf, absR]; norm_num
@@ -257,7 +257,7 @@ theorem constraint_drives_penalty_to_zero [DecidableEq C] (env : Env C K) (isPos
 
 /-- the text `x0 - 2*x1 >= 3`, `x0 = x2` : accepted conditions, a feasible and an infeasible point -/
 example :
-    let env : Env Nat ℚ := ⟨fun n => (n : ℚ), 1 / 1000, 1 / 1000⟩
+    let env : Env Nat ℚ := { ι := fun n => (n : ℚ), tol := 1 / 1000, rel := 1 / 1000 }
     let r1 : Rel2 Nat := ⟨.sub (.var 0) (.mul (.num 2) (.var 1)), .ge, .num 3⟩
     let r2 : Rel2 Nat := ⟨.var 0, .eq, .var 2⟩
     let ts := [((condEmit r1).1.default, (condEmit r1).2), ((condEmit r2).1.default, (condEmit r2).2)]
